@@ -1,9 +1,10 @@
-(* C17 — Numeric built-ins agree with exact arithmetic (unknown functions: see C17_unknown in Props/C17b when built).
+(* C17 — Numeric built-ins agree with exact arithmetic; unknown functions pass through (C17_unknown_function, on the evaluator model).
    The arithmetic of each built-in is translated from lesscpy/plib/call.py and lesscpy/lessc/utility.py on
    every run (Gen/Params.v: builtin_*_py, away_from_zero_round_py). *)
 From Coq Require Import String.
 From Coq Require Import List Ascii Bool ZArith QArith Qround Qabs.
 Require Import Model.Text Model.Num Model.PyNum Gen.PNumeric Model.Number Spec.NumSpec Proofs.NumProofs.
+Require Import Model.Ast Model.Scope Model.Eval Proofs.TermProofs.
 Import ListNotations.
 Local Open Scope Q_scope.
 
@@ -27,6 +28,15 @@ Theorem C17_builtins :
   builtin_meets $"percentage" spec_percentage (Some $"%") twelve_decimals.
 Proof. exact builtins_correct. Qed.
 Print Assumptions C17_builtins.
+
+(* a function name lesscpy does not define (the evaluator's Call fall-through): the name, then the arguments evaluated where the
+   call stands and otherwise unchanged, in the same order *)
+Theorem C17_unknown_function : forall fuel sc name args vals rest,
+  eval_value fuel sc args = ROk vals ->
+  eval_value (S fuel) sc (VCall name args :: rest)
+  = rbind (eval_value (S fuel) sc rest) (fun r => ROk ((name ++ $"(" ++ concat_str vals ++ $")")%list :: r)).
+Proof. exact unknown_function_passes. Qed.
+Print Assumptions C17_unknown_function.
 
 (* non-vacuity *)
 Example C17_example :
